@@ -251,14 +251,25 @@ theorem C05_resist_roll (cat : C) (s : St Rat) (t : Int) (d : Desc Rat) (h : bas
     simp [resists, this]
 
 /-- the resistance looked up for a shape is the largest among its flags, and 0 without flags -/
-theorem C05_debuff_res (m : List (Nat × Rat)) : debuffRes m [] = 0 ∧
-    ∀ f x, m.find? (·.1 == f) = some (f, x) → debuffRes m [f] = max 0 x := by
-  refine ⟨rfl, ?_⟩
-  intro f x h
-  simp only [debuffRes, List.foldl_cons, List.foldl_nil, h]
-  by_cases hx : x > 0
-  · simp [hx, max_eq_right (le_of_lt hx)]
-  · simp [hx, max_eq_left (not_lt.mp hx)]
+theorem C05_debuff_res (m : Nat → Rat) : debuffRes m [] = 0 ∧
+    (∀ f, debuffRes m [f] = max 0 (m f)) ∧ (∀ f g, debuffRes m [f, g] = max (max 0 (m f)) (m g)) := by
+  refine ⟨rfl, ?_, ?_⟩
+  · intro f
+    simp only [debuffRes, List.foldl_cons, List.foldl_nil]
+    by_cases hx : m f > 0
+    · simp [hx, max_eq_right (le_of_lt hx)]
+    · simp [hx, max_eq_left (not_lt.mp hx)]
+  · intro f g
+    simp only [debuffRes, List.foldl_cons, List.foldl_nil]
+    by_cases hx : m f > 0
+    · simp only [hx, if_true, max_eq_right (le_of_lt hx)]
+      by_cases hg : m g > m f
+      · simp [hg, max_eq_right (le_of_lt hg)]
+      · simp [hg, max_eq_left (not_lt.mp hg)]
+    · simp only [hx, if_false, max_eq_left (not_lt.mp hx)]
+      by_cases hg : m g > 0
+      · simp [hg, max_eq_right (le_of_lt hg)]
+      · simp [hg, max_eq_left (not_lt.mp hg)]
 
 /-! ### complete behaviour without listeners -/
 
